@@ -26,6 +26,12 @@ CHECKS = {
  "C08": dict(cat="exploration", technique="clang ASan+UBSan and PROT_NONE guard-page executions of the generated C with exact contract-extent buffers for all entity/permutation values",
    text="Generated C of the C01/C02/C04 corpora (plus sum-factorised and diagonal kernels) is linked with a generic driver; every kernel is called for all valid entity indices and permutation codes with buffers malloc'ed at exactly the extents the UFL form implies (NULL for unused pointers) under ASan+UBSan, and again with buffers flush against guard pages.",
    note="Extents computed by the harness from the UFL form/ufcx.h. Red-zone/guard-page reach is one page; far overruns inside that are caught, beyond not (E-ast interpreter planned).", ref="3/C08"),
+ "C09": dict(cat="exploration", technique="four JIT builds per form: pairwise metamorphic comparison on identical real data + oracle comparison on complex data",
+   text="Sesquilinear curated forms, forms with conj/real/imag/abs/complex literals/complex math functions/derivative, and seeded random forms are compiled for float32/float64/complex64/complex128; all type pairs are compared on the same real data and each kernel with the oracle (complex kernels on complex w/c).",
+   note="Reference for sesquilinearity is UFL's complex_mode lowering; tolerances 2e3-2e4 eps of the narrower type.", ref="3/C09"),
+ "C10": dict(cat="exploration", technique="differential kernels of one form under option sets (sum_factorization, part=diagonal, table tolerances, non-applicable options) + oracle + measured table perturbation",
+   text="(form, option set) groups are compiled with identical compiler flags and executed on the same data: sum factorisation on/off on tensor-product meshes, diagonal vs diagonal of the full tensor, tolerance grid bounded by 50x the measured table perturbation, and options that do not apply must be bitwise without effect and must not fail.",
+   note="One open known finding (non-tensor-product elements with sum_factorization assert). UFL-side rejection of extract_blocks forms is not counted.", ref="3/C10"),
 }
 NA_REASON = "check not built yet in this round (runtime monitoring applies; see DESIGN.md section 3)"
 
